@@ -203,7 +203,11 @@ func (g *Gen) fill(rv reflect.Value, o GenOpts) {
 		case f.Type == tTime:
 			fv.Set(reflect.ValueOf(g.Time(o.Nanos)))
 		case f.Type == tDur:
-			fv.SetInt(int64(g.Intn(7200)-600) * int64(time.Second))
+			secs := int64(g.Intn(7200) - 600)
+			if g.Chance(1, 4) { // days, months, years
+				secs = int64(g.Intn(800)-100)*86400 + int64(g.Intn(3))*int64(g.Intn(86400))
+			}
+			fv.SetInt(secs * int64(time.Second))
 		case f.Type == tSource:
 			fv.Set(reflect.ValueOf(ap.Source{MediaType: "text/markdown", Content: g.Nlv()}))
 		case f.Type == tEndp:
